@@ -21,11 +21,17 @@ def alphabet(kind='cpl'):
     ops += [{'via': 'setter', 'kw': {'eccentricity': 0}}, {'via': 'setter', 'kw': {'orbital_period': 0}}, {'via': 'orbit_time', 'kw': {'time': 0}}]
     if not sync:
         ops += [{'via': 'setter', 'kw': {'spin_period': 0}}]
-    if kind in ('cpl_obl', 'ctl_obl', 'layered'):
+    if kind.startswith('dual'):
+        ops += [{'via': 'host', 'kw': {'host_spin_period': 0}}]
+        if kind == 'dual_cpl':
+            ops += [{'via': 'host', 'kw': {'host_fixed_q': 0}}]
+        if kind == 'dual_layered':
+            ops += [{'via': 'host', 'kw': {'host_obliquity': 0}}, {'via': 'host', 'kw': {'host_temperature': 0}}, {'via': 'host', 'kw': {'host_spin_period': 0, 'host_obliquity': 0}}]
+    if kind in ('cpl_obl', 'ctl_obl', 'layered', 'dual_layered'):
         ops += [{'via': 'world', 'kw': {'obliquity': 0}}, {'via': 'world', 'kw': {'obliquity': 0, 'eccentricity': 0}}, {'via': 'setter', 'kw': {'obliquity': 0}}]
-    if kind.startswith('layered'):
+    if kind.startswith('layered') or kind == 'dual_layered':
         ops += [{'via': 'layer', 'kw': {'temperature': 0}}, {'via': 'layer_setter', 'kw': {'temperature': 0}}]
-    elif kind.startswith('cpl'):
+    elif kind.startswith('cpl') or kind == 'dual_cpl':
         ops += [{'via': 'tides', 'kw': {'fixed_q': 0}}]
     elif kind.startswith('ctl'):
         ops += [{'via': 'tides', 'kw': {'fixed_dt': 0}}]
@@ -33,7 +39,7 @@ def alphabet(kind='cpl'):
 
 
 def op_name(op):
-    via = {'world': 'world.set_state', 'orbit': 'orbit.set_state', 'setter': 'world.<attr> =', 'layer': 'mantle.set_state', 'layer_setter': 'mantle.temperature =', 'tides': 'world.set_fixed', 'orbit_time': 'orbit.time ='}[op['via']]
+    via = {'world': 'world.set_state', 'orbit': 'orbit.set_state', 'setter': 'world.<attr> =', 'layer': 'mantle.set_state', 'layer_setter': 'mantle.temperature =', 'tides': 'world.set_fixed', 'orbit_time': 'orbit.time =', 'host': 'host.set_state / host setters'}[op['via']]
     return '%s(%s)' % (via, ', '.join(sorted(op['kw'])))
 
 
@@ -223,9 +229,10 @@ def _sha_of_sources():
 def main():
     jobs = []
     if TIER == 'thorough':
-        plan = [('cpl', 3, 16, False), ('ctl', 2, 4, False), ('cpl_obl', 2, 4, False), ('cpl_sync', 2, 4, False), ('layered', 2, 8, False), ('cpl', 2, 4, True), ('layered', 1, 1, True)]
+        plan = [('cpl', 3, 16, False), ('ctl', 2, 4, False), ('cpl_obl', 2, 4, False), ('ctl_obl', 1, 1, False), ('cpl_sync', 2, 4, False), ('layered', 2, 8, False), ('dual_cpl', 2, 6, False), ('dual_layered', 2, 10, False),
+                ('cpl', 2, 4, True), ('layered', 1, 1, True), ('dual_cpl', 1, 1, True)]
     else:
-        plan = [('cpl', 2, 6, False), ('ctl', 1, 1, False), ('cpl_obl', 1, 1, False), ('cpl_sync', 1, 1, False), ('layered', 1, 2, False), ('cpl', 1, 1, True)]
+        plan = [('cpl', 2, 6, False), ('ctl', 1, 1, False), ('cpl_obl', 1, 1, False), ('cpl_sync', 1, 1, False), ('layered', 1, 2, False), ('dual_cpl', 1, 1, False), ('dual_layered', 1, 2, False), ('cpl', 1, 1, True)]
     for world, k, n, arrays in plan:
         for c in range(n):
             jobs.append((job_histories, {'world': world, 'k': k, 'chunk': c, 'nchunks': n, 'arrays': arrays}))
@@ -237,7 +244,7 @@ def main():
                        'operation at each step = enumeration of the bounded history space) are executed; for every exposed quantity z3 decides the validity of T_history = T_fresh over uninterpreted functions '
                        '+ real arithmetic, i.e. for ALL input values and all interpretations of the leaves. A sat answer is confirmed by the concrete values of the same real run before it is reported.',
         'bounds': bounds_txt + '. Operations: single and batched set_state through the world and through the orbit, attribute setters, time, obliquity, layer temperature, fixed-Q / fixed-dt. '
-                  'Worlds: global-approximation CPL / CTL (with and without obliquity tides, forced spin-synchronous) and a two-layer Io with Maxwell/Andrade layered tides.',
+                  'Worlds: global-approximation CPL / CTL (with and without obliquity tides, forced spin-synchronous), a two-layer Io with layered tides, and dual-body systems (tidally active host and body, CPL and layered).',
         'outside': 'longer histories; other world configurations, eccentricity truncations and tidal orders (the update cascade does not branch on them); branches of the cascade that depend on input VALUES are followed for the one '
                    'concrete value per symbol used by the tracer; quantities whose provenance is lost are listed in the notes as NOT COVERED, not as passed.',
         'assumptions': ['leaf functions are deterministic functions of their arguments'],
